@@ -104,6 +104,9 @@ def snapshot(root):
             if rel.startswith("tmp" + os.sep) or rel.startswith("_in" + os.sep):
                 continue
             try:
+                if os.path.islink(p):
+                    snap[rel] = ("link", os.readlink(p))
+                    continue
                 with open(p, "rb") as fh:
                     data = fh.read()
                 snap[rel] = (len(data), hashlib.sha256(data).hexdigest()[:16])
@@ -517,6 +520,11 @@ def exec_history(hist):
                 os.makedirs(os.path.dirname(p), exist_ok=True)
                 with open(p, "w") as fh:
                     fh.write(content)
+            for link, target in op.get("pre_links", []):
+                lp = os.path.join(root, link)
+                os.makedirs(os.path.dirname(lp), exist_ok=True)
+                if not os.path.lexists(lp):
+                    os.symlink(target, lp)           # target relative to the link's directory
             if op.get("cwd"):
                 os.makedirs(os.path.join(root, op["cwd"]), exist_ok=True)
                 os.chdir(os.path.join(root, op["cwd"]))
@@ -589,8 +597,12 @@ def exec_history(hist):
             base = os.path.basename(out)
             for f in sorted(os.listdir(d)):
                 if f.startswith("#" + base + "."):
-                    with open(os.path.join(d, f)) as fh:
-                        res["backups"][f] = fh.read()
+                    try:
+                        with open(os.path.join(d, f)) as fh:
+                            res["backups"][f] = fh.read()
+                    except OSError:
+                        res["backups"][f] = None          # e.g. a dangling link that was moved aside
+            res["out_is_link"] = os.path.islink(out)
             res["stray_tmp"] = sorted(f for f in os.listdir(root) if f not in ("tmp", "_in") and
                                       (f.startswith("tmp") or f.endswith(".tmp")))
             if hist.get("roundtrip") and op["op"] == "gen_params" and res["status"] == "ok":
